@@ -60,7 +60,8 @@ static void* job_thread(void* arg) {
       j->ser_written = cbor_serialize(j->item, out, j->ser_size);
       free(out);
       j->phase = "cbor_describe";
-      cbor_describe(j->item, devnull);
+      /* cbor_describe indents by 4 x depth spaces per line, i.e. quadratic output: skipped for limits >= 65536 (minutes of printing zeros) */
+      if (LIM < 65536) cbor_describe(j->item, devnull);
       j->phase = "cbor_copy";
       cbor_item_t* cp = cbor_copy(j->item);
       j->copy_ok = cp != NULL;
@@ -175,10 +176,14 @@ static void nest_run(void) {
   depths[nd++] = LIM; depths[nd++] = LIM + 1; depths[nd++] = LIM + 2; depths[nd++] = 4 * LIM;
   if (LIM > 1) depths[nd++] = 1;
   if (O.thorough) { depths[nd++] = 64 * LIM; depths[nd++] = 2 * LIM + 1; }
+  if (LIM >= 65536) { /* very large limits: only the boundary itself (a 16- or 32-bit depth counter must not wrap) */
+    nd = 0; depths[nd++] = LIM; depths[nd++] = LIM + 1; if (O.thorough) depths[nd++] = LIM - 1;
+  }
   int unit = 0;
   for (int kind = 0; kind < CH_NKINDS; kind++)
     for (int leaf = 0; leaf < 5; leaf++)
       for (size_t di = 0; di < nd; di++, unit++) {
+        if (LIM >= 65536 && !O.thorough && (leaf == 2 || leaf == 4 || kind == CH_TAG_WIDE || kind == CH_INDEFMAP_KEY || kind == CH_DEFMAP_KEY)) continue;
         if (unit % O.nshards != O.shard) continue;
         size_t depth = depths[di];
         /* with a chunked string innermost the containers supply depth-1 levels */
